@@ -6,9 +6,12 @@ pub struct IndentWidth(isize);
 
 impl IndentWidth {
     pub const DEFAULT: Self = Self(2);
+    /// The renderer materialises one indentation per nesting level of every line, so the width
+    /// is bounded well below what would exhaust memory.
+    pub const MAX_COLUMNS: usize = 255;
 
     pub const fn new(columns: usize) -> Option<Self> {
-        if columns == 0 || columns > isize::MAX as usize {
+        if columns == 0 || columns > Self::MAX_COLUMNS {
             None
         } else {
             Some(Self(columns as isize))
